@@ -10,6 +10,7 @@ Scenario (JSON):
         script: [ATTEMPT, ...]}    ATTEMPT = {act, delay, cuts, k, hex, code}
   After the script of an OP is exhausted the peer answers correctly ('reply').
   connect_script: ['ok'|'refuse', ...]  per connection attempt (default ok)
+  caller_delay: [seconds, ...]  per caller: delay before its first call (default 0)
   cpu_step, sched
 """
 import struct
@@ -490,6 +491,9 @@ def run(scn, keep_log=False, real_server=None):
 
         def caller(ci, ops):
             def body():
+                d0 = (scn.get('caller_delay') or [])
+                if ci < len(d0) and d0[ci]:
+                    seams.CURRENT.sleep(d0[ci])      # this thread issues its first request a little later
                 for oi, op in enumerate(ops):
                     rec = {'caller': ci, 'index': oi, 'invoke_seq': k.log('invoke', ci, oi), 't0': k.now,
                            'result': None, 'exc': None}
